@@ -9,10 +9,10 @@ import (
 
 var c05JobPool = []string{"build", "test", "deploy", "lint", "setup", "pack", "release", "e2e", "docs_gen", "pre-check"}
 var c05StepPool = []string{"checkout", "cache", "vars", "meta", "build", "s1", "get-ver", "prep"}
-var c05OutPool = []string{"version", "sha", "matrix", "url", "flag", "result", "art-name"}
+var c05OutPool = []string{"version", "sha", "matrix", "url", "flag", "result", "art-name", "include", "exclude"}
 var c05KeyPool = []string{"os", "node", "target", "cfg", "exp", "ver", "flags"}
 var c05PropPool = []string{"name", "arch", "img", "tag", "opt"}
-var c05InputPool = []string{"env", "debug", "ref", "version", "count", "dry-run", "target"}
+var c05InputPool = []string{"env", "debug", "ref", "version", "count", "dry-run", "target", "include", "exclude"}
 var c05SecretPool = []string{"token", "npm_token", "deploy_key", "pass", "api-key"}
 var c05ScalarPool = []string{"ubuntu", "windows", "mac", "14", "16", "18", "true", "false", "x64", "arm64", "1.2", "stable"}
 
@@ -191,7 +191,140 @@ func c05GenModel(r *Rand, prof string) *c05Model {
 			j.Steps = append(j.Steps, st)
 		}
 	}
+	if prof == "matobj" || r.Chance(8, 100) {
+		c05AddObjectMatrix(r, m)
+	}
 	return m
+}
+
+// c05SetNames makes the (case-insensitive) presence of "include" / "exclude" in names follow the
+// variant (0 neither, 1 include, 2 exclude, 3 both).
+func c05SetNames(r *Rand, names []string, variant int) []string {
+	var out []string
+	for _, n := range names {
+		if !c05Eq(n, "include") && !c05Eq(n, "exclude") {
+			out = append(out, n)
+		}
+	}
+	if variant&1 != 0 {
+		out = append(out, c05Case(r, "include"))
+	}
+	if variant&2 != 0 {
+		out = append(out, c05Case(r, "exclude"))
+	}
+	p := r.Perm(len(out))
+	res := make([]string, len(out))
+	for i, q := range p {
+		res[i] = out[q]
+	}
+	return res
+}
+
+// c05AddObjectMatrix gives one job a `matrix: ${{ <context object> }}` (needs.<job>.outputs, needs,
+// inputs, vars or a constant fromJSON) and makes the declared names of that object contain
+// "include", "exclude", both or neither: the implementation derives the matrix type from that
+// object by dropping these two properties, which must not change what the object itself declares.
+func c05AddObjectMatrix(r *Rand, m *c05Model) {
+	nj := len(m.Jobs)
+	kind := []string{"needs-outputs", "needs-outputs", "needs-outputs", "needs-outputs", "needs-outputs", "inputs", "inputs", "inputs", "needs", "needs", "vars", "fromjson"}[r.Intn(12)]
+	variant := r.Intn(4)
+	ji := r.Intn(nj)
+	tgt := -1
+	if kind == "needs-outputs" || kind == "needs" {
+		// a job with a direct non-call need
+		var cand []int
+		for k, j := range m.Jobs {
+			for _, d := range j.Needs {
+				if !m.Jobs[d].Call {
+					cand = append(cand, k)
+					break
+				}
+			}
+		}
+		if len(cand) == 0 {
+			kind = "inputs"
+		} else {
+			ji = cand[r.Intn(len(cand))]
+			var ds []int
+			for _, d := range m.Jobs[ji].Needs {
+				if !m.Jobs[d].Call {
+					ds = append(ds, d)
+				}
+			}
+			tgt = ds[r.Intn(len(ds))]
+		}
+	}
+	mx := &c05Matrix{ObjExpr: kind, ObjJob: tgt}
+	switch kind {
+	case "needs-outputs":
+		if r.Chance(1, 10) && nj > 2 {
+			// sometimes the job is not a direct need: the expression itself is out of scope
+			mx.ObjJob = r.Intn(nj)
+			if m.Jobs[mx.ObjJob].Call {
+				mx.ObjJob = tgt
+			}
+		}
+		t := m.Jobs[mx.ObjJob]
+		t.Outputs = c05SetNames(r, t.Outputs, variant)
+	case "needs":
+		want := []string{}
+		if variant&1 != 0 {
+			want = append(want, "include")
+		}
+		if variant&2 != 0 {
+			want = append(want, "exclude")
+		}
+		var ds []int
+		for _, d := range m.Jobs[ji].Needs {
+			ds = append(ds, d)
+		}
+		used := map[int]bool{}
+		for _, w := range want {
+			taken := false
+			for _, j := range m.Jobs {
+				if c05Eq(j.ID, w) {
+					taken = true
+				}
+			}
+			if taken {
+				continue
+			}
+			for _, d := range ds {
+				if !used[d] && !c05Eq(m.Jobs[d].ID, "include") && !c05Eq(m.Jobs[d].ID, "exclude") {
+					used[d] = true
+					m.Jobs[d].ID = c05Case(r, w)
+					break
+				}
+			}
+		}
+	case "inputs":
+		if !m.Call && !m.Dispatch {
+			m.Call = true
+		}
+		set := func(ins []c05Input, ty string) []c05Input {
+			var names []string
+			tys := map[string]string{}
+			for _, i := range ins {
+				names = append(names, i.Name)
+				tys[i.Name] = i.Type
+			}
+			var out []c05Input
+			for _, n := range c05SetNames(r, names, variant) {
+				t, ok := tys[n]
+				if !ok {
+					t = ty
+				}
+				out = append(out, c05Input{n, t})
+			}
+			return out
+		}
+		if m.Call && (!m.Dispatch || r.Bool()) {
+			m.CallInputs = set(m.CallInputs, "string")
+		} else {
+			m.DispatchInputs = set(m.DispatchInputs, "string")
+		}
+	}
+	m.Jobs[ji].Matrix = mx
 }
 
 func c05GenMatrix(r *Rand) *c05Matrix {
@@ -327,6 +460,7 @@ type c05Slot struct {
 	block    int    // > 0: block literal allowed, indentation of its content
 	lit      string
 	where    string
+	forced   *c05Pick // emit exactly this reference
 }
 
 type c05Gen struct {
@@ -338,6 +472,11 @@ type c05Gen struct {
 	refs    []*c05Ref
 	refProb int
 	nvar    int
+
+	// references that must be made because some job uses their entity as its matrix expression
+	forcedWF   []c05Pick
+	forcedJob  map[int][]c05Pick
+	forcedStep map[int][]c05Pick
 }
 
 func (g *c05Gen) ctxWeight(ctx string) int {
@@ -594,6 +733,13 @@ func (g *c05Gen) pickMatrix(job int) *c05Pick {
 		}
 	}
 	mine := append(append([]string{}, rows...), incOnly...)
+	if mx != nil && mx.ObjExpr != "" {
+		names := g.sc.objectMatrixKeys(mx, job)
+		if len(names) == 0 {
+			return nil
+		}
+		return &c05Pick{root: "matrix", segs: []string{r.Pick(names)}, class: "matrix-key", sub: "object-key", obj: mx.ObjExpr == "needs" || mx.ObjExpr == "fromjson"}
+	}
 	if mx == nil {
 		var key string
 		if len(other) > 0 && r.Bool() {
@@ -888,7 +1034,23 @@ func (g *c05Gen) refText(p *c05Pick) (string, []string) {
 }
 
 // pick chooses a reference for the slot; nil if none can be made.
+func c05Classify(p *c05Pick) {
+	switch p.class {
+	case "steps-id", "steps-out", "needs-result", "needs-output", "secrets", "jobs-output", "matrix-nested":
+		p.str = !p.obj
+	}
+}
+
 func (g *c05Gen) pick(s c05Slot) (*c05Pick, c05Verdict, int, string) {
+	if s.forced != nil {
+		p := *s.forced
+		c05Classify(&p)
+		v, bad, why := g.sc.Resolve(p.root, p.segs, s.job, s.at)
+		if v == c05Skip {
+			return nil, c05Skip, 0, ""
+		}
+		return &p, v, bad, why
+	}
 	for try := 0; try < 6; try++ {
 		ws := make([]int, len(s.ctxs))
 		for i, c := range s.ctxs {
@@ -913,15 +1075,12 @@ func (g *c05Gen) pick(s c05Slot) (*c05Pick, c05Verdict, int, string) {
 		if p == nil {
 			continue
 		}
-		switch p.class {
-		case "steps-id", "steps-out", "needs-result", "needs-output", "secrets", "jobs-output", "matrix-nested":
-			p.str = !p.obj
-		}
+		c05Classify(p)
 		v, bad, why := g.sc.Resolve(p.root, p.segs, s.job, s.at)
 		if v == c05Skip {
 			continue
 		}
-		if s.fromJSON && (p.obj || p.root == "inputs" && g.inputIsBool(p.segs[0]) || p.class == "matrix-key" && v == c05In) {
+		if s.fromJSON && (p.obj || p.root == "inputs" && g.inputIsBool(p.segs[0]) || p.class == "matrix-key" && (v == c05In || p.sub == "object-key")) {
 			continue // fromJSON() takes a string
 		}
 		return p, v, bad, why
@@ -940,7 +1099,7 @@ func (g *c05Gen) emit(prefix string, s c05Slot) {
 	if s.fromJSON {
 		prob = 50
 	}
-	if len(s.ctxs) > 0 && r.Intn(100) < prob {
+	if s.forced != nil || len(s.ctxs) > 0 && r.Intn(100) < prob {
 		p, v, bad, why = g.pick(s)
 	}
 	if p == nil {
@@ -1142,6 +1301,21 @@ func (g *c05Gen) strategy(pfx string, ind int, job int) {
 	if r.Chance(1, 6) {
 		g.emit(c05Sp(ind+2)+"max-parallel: ", c05Slot{ctxs: []string{"inputs", "needs"}, job: job, at: -1, fromJSON: true, where: "strategy max-parallel"})
 	}
+	if mx.ObjExpr != "" {
+		var p *c05Pick
+		switch mx.ObjExpr {
+		case "needs-outputs":
+			p = &c05Pick{root: "needs", segs: []string{g.m.Jobs[mx.ObjJob].ID, "outputs"}}
+		case "needs", "inputs", "vars":
+			p = &c05Pick{root: mx.ObjExpr}
+		default:
+			b.W(c05Sp(ind+2) + `matrix: ${{ fromJSON('{"os":["a","b"],"include":[{"extra":1}],"exclude":[{"os":"a"}]}') }}` + "\n")
+			return
+		}
+		p.class, p.sub, p.obj = "matrix-object-expr", mx.ObjExpr, true
+		g.emit(c05Sp(ind+2)+"matrix: ", c05Slot{job: job, at: -1, kind: "object", exact: true, forced: p, where: "matrix (context object)"})
+		return
+	}
 	if mx.Whole {
 		g.emit(c05Sp(ind+2)+"matrix: ", c05Slot{ctxs: []string{"inputs", "needs"}, job: job, at: -1, fromJSON: true, exact: true, where: "matrix (whole)"})
 		return
@@ -1208,6 +1382,19 @@ func (g *c05Gen) needsField(pfx string, ind int, job int) {
 }
 
 func (g *c05Gen) envField(pfx string, ind int, ctxs []string, job, at int, where string) {
+	forced := g.forcedAt(job, at)
+	if len(forced) > 0 {
+		g.b.W(pfx + "env:\n")
+		for i := range forced {
+			g.nvar++
+			g.emit(fmt.Sprintf("%sVAR_%d: ", c05Sp(ind+2), g.nvar), c05Slot{ctxs: ctxs, job: job, at: at, lit: "literal", where: where, forced: &forced[i]})
+		}
+		if g.r.Bool() {
+			g.nvar++
+			g.emit(fmt.Sprintf("%sVAR_%d: ", c05Sp(ind+2), g.nvar), c05Slot{ctxs: ctxs, job: job, at: at, lit: "literal", where: where})
+		}
+		return
+	}
 	if g.r.Chance(12, 100) {
 		// env: ${{ ... }} (the whole mapping given by an expression)
 		g.emit(pfx+"env: ", c05Slot{ctxs: ctxs, job: job, at: at, fromJSON: true, where: where + " (whole)"})
@@ -1219,6 +1406,20 @@ func (g *c05Gen) envField(pfx string, ind int, ctxs []string, job, at int, where
 		g.nvar++
 		g.emit(fmt.Sprintf("%sVAR_%d: ", c05Sp(ind+2), g.nvar), c05Slot{ctxs: ctxs, job: job, at: at, lit: "literal", where: where})
 	}
+}
+
+// forcedAt: the forced references of a place (workflow env: job -1; job env / call with: at -1;
+// env of the last step of the job: at = its index).
+func (g *c05Gen) forcedAt(job, at int) []c05Pick {
+	switch {
+	case job < 0:
+		return g.forcedWF
+	case at < 0:
+		return g.forcedJob[job]
+	case at == len(g.m.Jobs[job].Steps)-1:
+		return g.forcedStep[job]
+	}
+	return nil
 }
 
 func (g *c05Gen) step(job, si int) {
@@ -1263,7 +1464,7 @@ func (g *c05Gen) step(job, si int) {
 			}})
 		}
 	}
-	if r.Chance(1, 3) {
+	if r.Chance(1, 3) || len(g.forcedAt(job, si)) > 0 {
 		fs = append(fs, c05Field{"env", func(pfx string, ind int) { g.envField(pfx, ind, stepCtx, job, si, "step env") }})
 	}
 	if r.Chance(1, 6) {
@@ -1304,9 +1505,13 @@ func (g *c05Gen) job(job int) {
 	}
 	if j.Call {
 		fs = append(fs, c05Field{"uses", func(pfx string, ind int) { b.W(pfx + "uses: some-org/some-repo/.github/workflows/ci.yml@v1\n") }})
-		if r.Chance(2, 3) {
+		if r.Chance(2, 3) || len(g.forcedJob[job]) > 0 {
 			fs = append(fs, c05Field{"with", func(pfx string, ind int) {
 				b.W(pfx + "with:\n")
+				forced := g.forcedJob[job]
+				for i := range forced {
+					g.emit(fmt.Sprintf("%sforced%d: ", c05Sp(ind+2), i), c05Slot{ctxs: jobCtx, job: job, at: -1, lit: "value", where: "call with", forced: &forced[i]})
+				}
 				n := r.Range(1, 2)
 				for i := 0; i < n; i++ {
 					g.emit(fmt.Sprintf("%sarg%d: ", c05Sp(ind+2), i), c05Slot{ctxs: jobCtx, job: job, at: -1, lit: "value", where: "call with"})
@@ -1351,7 +1556,7 @@ func (g *c05Gen) job(job int) {
 			}
 		}})
 	}
-	if r.Chance(1, 3) {
+	if r.Chance(1, 3) || len(g.forcedJob[job]) > 0 {
 		fs = append(fs, c05Field{"env", func(pfx string, ind int) {
 			g.envField(pfx, ind, []string{"inputs", "matrix", "needs", "secrets"}, job, -1, "job env")
 		}})
@@ -1514,9 +1719,116 @@ func (g *c05Gen) on(pfx string, ind int) {
 	g.fields(fs, ind+2, false)
 }
 
+// c05NameClass: include / exclude / other; "exclude-without-include" when the object the name
+// belongs to does not declare include (the two names are dropped on different code paths).
+func c05NameClass(n string, declared []string) string {
+	switch {
+	case c05Eq(n, "include"):
+		return "include"
+	case c05Eq(n, "exclude"):
+		if !c05Has(declared, "include") {
+			return "exclude-without-include"
+		}
+		return "exclude"
+	}
+	return "other"
+}
+
+// buildForced: for every job whose matrix is a context object, references to all names that object
+// declares (and to include / exclude when it does not declare them) from the job itself (job env,
+// env of its last step), from the other jobs that see the same entity, and, for inputs, from the
+// workflow level.
+func (g *c05Gen) buildForced() {
+	m := g.m
+	g.forcedJob, g.forcedStep = map[int][]c05Pick{}, map[int][]c05Pick{}
+	withBoth := func(names []string) []string {
+		out := append([]string{}, names...)
+		for _, w := range []string{"include", "exclude"} {
+			if !c05Has(out, w) {
+				out = append(out, w)
+			}
+		}
+		return out
+	}
+	for ji, j := range m.Jobs {
+		if j.Matrix == nil || j.Matrix.ObjExpr == "" {
+			continue
+		}
+		kind := j.Matrix.ObjExpr
+		switch kind {
+		case "needs-outputs":
+			t := m.Jobs[j.Matrix.ObjJob]
+			for _, n := range withBoth(t.Outputs) {
+				for k, o := range m.Jobs {
+					sees := k == ji
+					for _, d := range o.Needs {
+						if d == j.Matrix.ObjJob {
+							sees = true
+						}
+					}
+					if !sees {
+						continue
+					}
+					sub := "matrix-source[needs-outputs]/" + c05NameClass(n, t.Outputs)
+					if k != ji {
+						sub = "matrix-source-other-job[needs-outputs]/" + c05NameClass(n, t.Outputs)
+					}
+					p := c05Pick{root: "needs", segs: []string{t.ID, "outputs", n}, class: "needs-output", sub: sub}
+					g.forcedJob[k] = append(g.forcedJob[k], p)
+					if k == ji && !o.Call {
+						g.forcedStep[k] = append(g.forcedStep[k], p)
+					}
+				}
+			}
+		case "needs":
+			var ids []string
+			for _, d := range j.Needs {
+				ids = append(ids, m.Jobs[d].ID)
+			}
+			for _, n := range withBoth(ids) {
+				p := c05Pick{root: "needs", segs: []string{n}, class: "needs-job", obj: true, sub: "matrix-source[needs]/" + c05NameClass(n, ids)}
+				g.forcedJob[ji] = append(g.forcedJob[ji], p)
+				if !j.Call {
+					g.forcedStep[ji] = append(g.forcedStep[ji], p)
+				}
+			}
+		case "inputs":
+			var names []string
+			if m.Call {
+				for _, i := range m.CallInputs {
+					names = append(names, i.Name)
+				}
+			}
+			if m.Dispatch {
+				for _, i := range m.DispatchInputs {
+					if !c05Has(names, i.Name) {
+						names = append(names, i.Name)
+					}
+				}
+			}
+			for _, n := range withBoth(names) {
+				nc := c05NameClass(n, names)
+				g.forcedWF = append(g.forcedWF, c05Pick{root: "inputs", segs: []string{n}, class: "inputs", sub: "matrix-source-workflow[inputs]/" + nc})
+				for k, o := range m.Jobs {
+					sub := "matrix-source[inputs]/" + nc
+					if k != ji {
+						sub = "matrix-source-other-job[inputs]/" + nc
+					}
+					p := c05Pick{root: "inputs", segs: []string{n}, class: "inputs", sub: sub}
+					g.forcedJob[k] = append(g.forcedJob[k], p)
+					if k == ji && !o.Call {
+						g.forcedStep[k] = append(g.forcedStep[k], p)
+					}
+				}
+			}
+		}
+	}
+}
+
 func c05Render(r *Rand, m *c05Model, prof string) *c05Gen {
 	g := &c05Gen{r: r, b: NewYB(), m: m, sc: c05Scope{m}, prof: prof, refProb: []int{45, 65, 85}[r.Intn(3)]}
 	b := g.b
+	g.buildForced()
 	if r.Bool() {
 		b.W("name: generated\n")
 	}
@@ -1531,7 +1843,7 @@ func c05Render(r *Rand, m *c05Model, prof string) *c05Gen {
 	if prof == "events" {
 		envProb = 70
 	}
-	if r.Chance(envProb, 100) {
+	if r.Chance(envProb, 100) || len(g.forcedWF) > 0 {
 		fs = append(fs, c05Field{"env", func(pfx string, ind int) {
 			g.envField(pfx, ind, []string{"inputs", "secrets"}, -1, -1, "workflow env")
 		}})
